@@ -37,6 +37,9 @@ type c11Case struct {
 	// that calls overlap between reading and decoding their answers; SingleP runs the case on one processor
 	Overlap bool `json:"overlapping_calls,omitempty"`
 	SingleP bool `json:"single_processor,omitempty"`
+	// SameAs[i] = j (j < i): position i of the input list holds the very same *requests.Request as position j
+	// (one request object listed twice); the answer at i is then the answer to that request
+	SameAs map[int]int `json:"same_request_object_as,omitempty"`
 }
 
 // slowCloseBody: a response body whose Close yields the processor for a moment
@@ -192,6 +195,22 @@ func runC11(c c11Case) c11Obs {
 	}
 	g := &gateRT{c: c, done: map[int]bool{}, chunked: c.N > c.M}
 	g.cond = sync.NewCond(&g.mu)
+	// waiting calls re-check their deadline even if no completion is ever reported (code under test that no
+	// longer passes the hook points must make the case fail, not hang)
+	stopTick := make(chan struct{})
+	defer close(stopTick)
+	go func() {
+		t := time.NewTicker(50 * time.Millisecond)
+		defer t.Stop()
+		for {
+			select {
+			case <-stopTick:
+				return
+			case <-t.C:
+				g.cond.Broadcast()
+			}
+		}
+	}()
 	var order []int
 	nonEmptyErr := 0
 	common.SetVerifHook(func(point string, args ...any) {
@@ -235,6 +254,10 @@ func runC11(c c11Case) c11Obs {
 		isFile[f] = true
 	}
 	for i := range inputs {
+		if j, same := c.SameAs[i]; same && j < i {
+			inputs[i] = inputs[j]
+			continue
+		}
 		inputs[i] = &requests.Request{Query: "q" + strconv.Itoa(i)}
 		if isFile[i] {
 			inputs[i].Variables = map[string]interface{}{"f": &requests.Upload{File: nopFile{strings.NewReader("data" + strconv.Itoa(i))}, FileName: "f.txt"}}
@@ -288,10 +311,22 @@ func oracleC11(c c11Case, o c11Obs) string {
 	if len(o.Result) != c.N {
 		return fmt.Sprintf("%d results for %d requests", len(o.Result), c.N)
 	}
-	for i, r := range o.Result {
-		if r != i {
-			return fmt.Sprintf("result %d answers request %d (results %v)", i, r, o.Result)
+	want := func(i int) int {
+		for {
+			j, same := c.SameAs[i]
+			if !same || j >= i {
+				return i
+			}
+			i = j
 		}
+	}
+	for i, r := range o.Result {
+		if r != want(i) {
+			return fmt.Sprintf("result %d answers request %d, expected %d (results %v)", i, r, want(i), o.Result)
+		}
+	}
+	if len(c.SameAs) > 0 {
+		return ""
 	}
 	seen := map[int]int{}
 	for _, call := range o.Calls {
@@ -388,6 +423,17 @@ func driveC11(seed int64, tier string, out string, replay string) {
 				}
 			}
 		}
+		// one request object listed at several positions
+		for j := 0; j < 40; j++ {
+			n := 3 + rng.Intn(maxN)
+			m := 1 + rng.Intn(3)
+			c := c11Case{N: n, M: m, Pi: []int{0}, Overlap: true, SameAs: map[int]int{}}
+			for k := 0; k < 1+rng.Intn(2); k++ {
+				i := 1 + rng.Intn(n-1)
+				c.SameAs[i] = rng.Intn(i)
+			}
+			cases = append(cases, c)
+		}
 		// uploads and failing calls mixed in
 		extra := 150
 		if tier == "thorough" {
@@ -429,7 +475,13 @@ func driveC11(seed int64, tier string, out string, replay string) {
 		if what := oracleC11(c, o); what != "" {
 			obs.Fail(i, what, c)
 		}
-		coq = append(coq, c11CoqCase(c, o))
+		if len(c.SameAs) > 0 {
+			// decided by the oracle alone: the model speaks about lists of distinct requests
+			obs.Count("one_request_object_at_several_positions")
+			coq = append(coq, c11CoqCase(c11Case{N: 0, M: 1, Pi: []int{0}}, c11Obs{Order: []int{0}}))
+		} else {
+			coq = append(coq, c11CoqCase(c, o))
+		}
 		obs.CaseInputs = append(obs.CaseInputs, c)
 		if c.N > c.M {
 			distinct[fmt.Sprint(c.N, c.M, o.Order, c.Files, c.Fail)] = true
